@@ -14,7 +14,18 @@ Proof. apply (proj1 top_op_map_all). Qed.
 Lemma top_bop_map t : top_bop (map_strs f t) = top_bop t.
 Proof. destruct t; reflexivity. Qed.
 
+Lemma okind_of_map t : okind_of (map_strs f t) = okind_of t.
+Proof. destruct t; reflexivity. Qed.
+Lemma opc_map sl t c : opc sl (map_strs f t) c = opc sl t c.
+Proof. unfold opc. rewrite okind_of_map. reflexivity. Qed.
+Lemma neg_kind_map t :
+  match map_strs f t with TArith _ _ _ _ => neg_parens_arith | TNeg _ => neg_parens_neg | _ => false end
+  = match t with TArith _ _ _ _ => neg_parens_arith | TNeg _ => neg_parens_neg | _ => false end.
+Proof. destruct t; reflexivity. Qed.
+
 (* ---- the secondary quote stays a single character along every context change ---- *)
+Lemma sq1_opc sl t c : sq1 (opc sl t c) = sq1 c.
+Proof. unfold opc. destruct (operand_parens sl (okind_of t) && negb operand_keeps_subc); reflexivity. Qed.
 Lemma sq1_set_wa c b : sq1 (set_wa c b) = sq1 c. Proof. reflexivity. Qed.
 Lemma sq1_set_subq c b : sq1 (set_subq c b) = sq1 c. Proof. reflexivity. Qed.
 Lemma sq1_set_subc c b : sq1 (set_subc c b) = sq1 c. Proof. reflexivity. Qed.
@@ -31,6 +42,31 @@ Proof.
   change (tjoin sep (x :: y :: r')) with (x ++ CText sep :: tjoin sep (y :: r')).
   rewrite map_app. cbn [map shape]. rewrite IH. reflexivity.
 Qed.
+Lemma map_shape_topnd sl t ts : map shape (topnd sl t ts) = topnd sl t (map shape ts).
+Proof. apply map_shape_tparen. Qed.
+Lemma topnd_map sl t ts : topnd sl (map_strs f t) ts = topnd sl t ts.
+Proof. unfold topnd. rewrite okind_of_map. reflexivity. Qed.
+
+(* the first character of the text is decided by the shapes: a literal starts with its quote whatever its payload *)
+Definition head_char (s : string) : option ascii := match s with String a _ => Some a | EmptyString => None end.
+Lemma head_char_app a b : head_char (a ++ b)%string = match head_char a with Some x => Some x | None => head_char b end.
+Proof. destruct a; reflexivity. Qed.
+Lemma head_char_shape t : head_char (ctok_text (shape t)) = head_char (ctok_text t).
+Proof. destruct t; reflexivity. Qed.
+Lemma head_char_flat_shape ts : head_char (cflatten (map shape ts)) = head_char (cflatten ts).
+Proof.
+  induction ts as [|t r IH]; [reflexivity|]. cbn [map]. rewrite !cflatten_cons, !head_char_app, head_char_shape, IH. reflexivity.
+Qed.
+Lemma starts_minus_head s : starts_minus s = match head_char s with Some a => Ascii.eqb a "-"%char | None => false end.
+Proof. destruct s; reflexivity. Qed.
+Lemma tstarts_minus_cong a b : map shape a = map shape b -> tstarts_minus a = tstarts_minus b.
+Proof.
+  intros H. unfold tstarts_minus. rewrite !starts_minus_head, <- (head_char_flat_shape a), <- (head_char_flat_shape b), H.
+  reflexivity.
+Qed.
+Lemma topnd_cong sl t a b : map shape a = map shape b -> map shape (topnd sl t a) = map shape (topnd sl t b).
+Proof. intros H. rewrite !map_shape_topnd, H. reflexivity. Qed.
+
 Lemma tok_empty_shape t : tok_empty (shape t) = tok_empty t.
 Proof. destruct t; reflexivity. Qed.
 Lemma all_empty_shape ts : all_empty (map shape ts) = all_empty ts.
@@ -61,8 +97,9 @@ Definition Uo (o : oterm) := match o with ONone => True | OSome t => Ut t end.
 
 Ltac sh := cbn [rmap]; f_equal;
   rewrite ?map_shape_alias, ?map_app; cbn [map shape];
-  rewrite ?map_shape_tparen, ?map_shape_tjoin, ?map_app; cbn [map shape];
-  rewrite ?map_shape_tparen, ?map_shape_tjoin, ?map_app; cbn [map shape].
+  rewrite ?map_shape_tparen, ?map_shape_topnd, ?map_shape_tjoin, ?map_app; cbn [map shape];
+  rewrite ?map_shape_tparen, ?map_shape_topnd, ?map_shape_tjoin, ?map_app; cbn [map shape];
+  rewrite ?map_shape_tparen, ?map_shape_topnd, ?map_shape_tjoin, ?map_app; cbn [map shape].
 
 Lemma uniform_all : (forall t, Ut t) /\ (forall l, Ul l) /\ (forall l, Uw l) /\ (forall o, Uo o).
 Proof.
@@ -76,35 +113,37 @@ Proof.
   - reflexivity.
   - reflexivity.
   - reflexivity.
-  - (* TNeg *) intros t IH c H. cbn [map_strs toks]. eapply rmap_bind_cong; [apply IH; exact H|].
-    intros a' a Ha. sh. congruence.
-  - (* TArith *) intros op l IHl r IHr alias c H. cbn [map_strs toks]. rewrite !top_op_map.
-    eapply rmap_bind_cong; [apply IHl; exact H|]. intros a' a Ha.
-    eapply rmap_bind_cong; [apply IHr; exact H|]. intros b' b Hb.
+  - (* TNeg *) intros t IH c H. cbn [map_strs toks]. rewrite opc_map, neg_kind_map, !topnd_map.
+    eapply rmap_bind_cong; [apply IH; rewrite sq1_opc; exact H|].
+    intros a' a Ha. rewrite (tstarts_minus_cong _ _ (topnd_cong SNeg t _ _ Ha)). sh. congruence.
+  - (* TArith *) intros op l IHl r IHr alias c H. cbn [map_strs toks]. rewrite !top_op_map, !opc_map.
+    eapply rmap_bind_cong; [apply IHl; rewrite sq1_opc; exact H|]. intros a' a Ha.
+    eapply rmap_bind_cong; [apply IHr; rewrite sq1_opc; exact H|]. intros b' b Hb.
+    rewrite !topnd_map. rewrite (tstarts_minus_cong _ _ (topnd_cong SArithR r _ _ Hb)).
     destruct (wa c); sh; congruence.
-  - (* TBasic *) intros cm l IHl r IHr alias c H. cbn [map_strs toks].
-    eapply rmap_bind_cong; [apply IHl; exact H|]. intros a' a Ha.
-    eapply rmap_bind_cong; [apply IHr; exact H|]. intros b' b Hb.
-    destruct (wa c); sh; congruence.
+  - (* TBasic *) intros cm l IHl r IHr alias c H. cbn [map_strs toks]. rewrite !opc_map.
+    eapply rmap_bind_cong; [apply IHl; rewrite sq1_opc; exact H|]. intros a' a Ha.
+    eapply rmap_bind_cong; [apply IHr; rewrite sq1_opc; exact H|]. intros b' b Hb.
+    rewrite !topnd_map. destruct (wa c); sh; congruence.
   - (* TCplx *) intros bo l IHl r IHr alias c H. cbn [map_strs toks]. rewrite !top_bop_map.
     eapply rmap_bind_cong; [apply IHl; exact H|]. intros a' a Ha.
     eapply rmap_bind_cong; [apply IHr; exact H|]. intros b' b Hb.
     sh. congruence.
-  - (* TIn *) intros t IHt cont IHc negated alias c H. cbn [map_strs toks].
-    eapply rmap_bind_cong; [apply IHt; exact H|]. intros a' a Ha.
+  - (* TIn *) intros t IHt cont IHc negated alias c H. cbn [map_strs toks]. rewrite !opc_map.
+    eapply rmap_bind_cong; [apply IHt; rewrite sq1_opc; exact H|]. intros a' a Ha.
     eapply rmap_bind_cong; [apply IHc; exact H|]. intros b' b Hb.
-    sh. congruence.
-  - (* TBetween *) intros t IHt lo IHlo hi IHhi alias c H. cbn [map_strs toks].
-    eapply rmap_bind_cong; [apply IHt; exact H|]. intros a' a Ha.
-    eapply rmap_bind_cong; [apply IHlo; exact H|]. intros b' b Hb.
-    eapply rmap_bind_cong; [apply IHhi; exact H|]. intros d' d Hd.
-    sh. congruence.
+    rewrite !topnd_map. sh. congruence.
+  - (* TBetween *) intros t IHt lo IHlo hi IHhi alias c H. cbn [map_strs toks]. rewrite !opc_map.
+    eapply rmap_bind_cong; [apply IHt; rewrite sq1_opc; exact H|]. intros a' a Ha.
+    eapply rmap_bind_cong; [apply IHlo; rewrite sq1_opc; exact H|]. intros b' b Hb.
+    eapply rmap_bind_cong; [apply IHhi; rewrite sq1_opc; exact H|]. intros d' d Hd.
+    rewrite !topnd_map. sh. congruence.
   - (* TBitAnd *) intros t IHt v alias c H. cbn [map_strs toks].
     eapply rmap_bind_cong; [apply IHt; exact H|]. intros a' a Ha. sh. congruence.
-  - (* TIsNull *) intros t IHt alias c H. cbn [map_strs toks].
-    eapply rmap_bind_cong; [apply IHt; exact H|]. intros a' a Ha. sh. congruence.
-  - (* TNotNull *) intros t IHt alias c H. cbn [map_strs toks].
-    eapply rmap_bind_cong; [apply IHt; exact H|]. intros a' a Ha. sh. congruence.
+  - (* TIsNull *) intros t IHt alias c H. cbn [map_strs toks]. rewrite !opc_map.
+    eapply rmap_bind_cong; [apply IHt; rewrite sq1_opc; exact H|]. intros a' a Ha. rewrite !topnd_map. sh. congruence.
+  - (* TNotNull *) intros t IHt alias c H. cbn [map_strs toks]. rewrite !opc_map.
+    eapply rmap_bind_cong; [apply IHt; rewrite sq1_opc; exact H|]. intros a' a Ha. rewrite !topnd_map. sh. congruence.
   - (* TNot *) intros t IHt alias c H. cbn [map_strs toks].
     eapply rmap_bind_cong; [apply IHt; exact H|]. intros a' a Ha. sh. congruence.
   - (* TAll *) intros t IHt alias c H. cbn [map_strs toks].
